@@ -366,7 +366,7 @@ LAST_INFO = {}
 
 def explore(cap: int, ndb: int, ha: int, ia: int, hb: int, ib: int, tick: bool, dti: int,
             c0: int, c1: int, c2: int, c3: int, c4: int, k: int, check_liveness: bool,
-            exclude_f8: bool = True, fault_level: int = 1, wb: int = 0, wc: int = 0) -> bool:
+            exclude_f8: bool = True, fault_level: int = 1, wb: int = 0, wc: int = 0, strict_f8: bool = False) -> bool:
     """Recipe prefix + k symbolic actions (each followed by running the loop
     to quiescence and the C15 monitor) + fair closure (C16)."""
     # the recipe parameters are concrete in every obligation: run it natively
@@ -374,7 +374,7 @@ def explore(cap: int, ndb: int, ha: int, ia: int, hb: int, ib: int, tick: bool, 
         d = Driver(cap, ndb, fault_level)
         dt = dt_of(dti)
         hist = {'waitlisted_during_disconnect': False, 'stuck_waitlisted_below_capacity': False,
-                'stuck_after_aborted_prune': False}
+                'stuck_strictly_below_capacity': False, 'stuck_after_aborted_prune': False}
         recipe_ok = _recipe(d, ha, ia, hb, ib, tick, dt, wb, wc)
     try:
         if not recipe_ok:
@@ -406,8 +406,12 @@ def explore(cap: int, ndb: int, ha: int, ia: int, hb: int, ib: int, tick: bool, 
             served = _fair_closure(d, hist)
         if served is None:
             return False
-        if not served and exclude_f8 and hist['stuck_waitlisted_below_capacity']:
-            return True          # known finding F8, see explore_raw
+        if not served and exclude_f8 and hist['stuck_waitlisted_below_capacity'] and (
+                not strict_f8 or hist['stuck_strictly_below_capacity']):
+            # known finding F8, see explore_raw.  strict_f8: only while the pool is strictly below its capacity
+            # (the F8 histories free capacity through a discard); a request that starves while every connection
+            # sits idle in other blocks at full capacity is not F8: the Mode D rescue in _tick must serve it
+            return True
         if not served and exclude_f8 and hist['stuck_after_aborted_prune']:
             return True          # known finding F21, see explore_f21
         return served
@@ -445,6 +449,7 @@ def _fair_closure(d, hist):
         served = all(t.done() for _, t in d.tasks)
         if not served:
             hist['stuck_waitlisted_below_capacity'] = stuck_on_waitlist(d)
+            hist['stuck_strictly_below_capacity'] = d.env.pool._cur_capacity < d.env.pool._max_capacity
             hist['stuck_after_aborted_prune'] = stuck_after_aborted_prune(d)
         return served
 
@@ -457,6 +462,15 @@ def explore_f8(cap, ndb, ha, ia, hb, ib, tick, dti, c0, c1, c2, c3, c4, k, check
     """True iff the history ends in the F8 witness state."""
     explore(cap, ndb, ha, ia, hb, ib, tick, dti, c0, c1, c2, c3, c4, k, True, exclude_f8=False, fault_level=fault_level)
     return bool(LAST_INFO.get('stuck_waitlisted_below_capacity'))
+
+
+def explore_f8x(*args) -> bool:
+    """Witness predicate of F8 as the driver evaluates it: for an obligation run with strict_f8 (21st argument)
+    the history is an F8 instance only if the stuck pool is strictly below its capacity."""
+    if len(args) > 19 and args[19]:
+        explore(*args[:14], True, False, *args[16:19])
+        return bool(LAST_INFO.get('stuck_waitlisted_below_capacity')) and bool(LAST_INFO.get('stuck_strictly_below_capacity'))
+    return explore_f8(*args[:15])
 
 
 def explore_f21(cap, ndb, ha, ia, hb, ib, tick, dti, c0, c1, c2, c3, c4, k, check_liveness, fault_level=2) -> bool:
